@@ -36,7 +36,7 @@ ASSUMPTIONS = [
     "the product's documented choice for '}' inside an embedded pointer (first '}' closes the hole) is taken as given",
     "$url is compared with the URL that reached the API",
 ]
-MIN_EVALUATIONS = {"quick": 20000, "thorough": 400000}
+MIN_EVALUATIONS = {"quick": 12000, "thorough": 400000}
 MIN_NONTRIVIAL = {"quick": 1500, "thorough": 8000}
 REACH_FLOORS = {"wellformed_compared": 10000, "malformed_checked": 1500, "derived_requests_checked": 100, "links_followed:exact": 10, "links_followed:wildcard": 10, "links_followed:default": 5}
 SHARD_TIMEOUT = {"quick": 900, "thorough": 5400}
